@@ -394,6 +394,13 @@ def run(ctx):
                 cases.append({'kind': 'ledger', 'd': d, 'G': G, 'grid': 'D', 'seed': seed, 'nus': nuA, 'gammas': sel[1][0], 'hs': sel[1][1],
                               'theta0': 1.5, 'tf': 1e-3, 'steps': 4, 'frozen': frozen, 'nomut': None, 'mig': mig, 'units': (0, min(chunk, 9)),
                               'varying': True})
+        # migration-dominated step size with strongly asymmetric rates: every single rate in turn is the one that limits the step
+        for (ii, jj) in [(a_, b_) for a_ in range(d) for b_ in range(d) if a_ != b_]:
+            if ctx.quick and d >= 4 and (ii + 2 * jj) % 3:
+                continue
+            mig = [((a_, b_), 20.0 if (a_, b_) == (ii, jj) else 0.05) for a_ in range(d) for b_ in range(d) if a_ != b_]
+            cases.append({'kind': 'ledger', 'd': d, 'G': G, 'grid': 'D', 'seed': seed, 'nus': [4.0, 5.0, 6.0, 4.5, 5.5][:d], 'gammas': [0.0] * d, 'hs': [0.5] * d,
+                          'theta0': 1.5, 'tf': 1e-3, 'steps': 5, 'frozen': (0,) * d, 'nomut': None, 'mig': mig, 'units': (0, min(N, 9))})
         for steps in (1, 7):
             for funcs in (False, True):
                 for gk in gks:
